@@ -421,6 +421,32 @@ func init() {
 			}
 		},
 	}
+	// ---- collide (C13 / C05): derived callback / task ids that coincide across promises (ids containing ':') ----
+	families["collide"] = &family{
+		name: "collide", bgs: []string{"TimeoutPromises"}, requests: 14, maxSteps: 40, fault: 0.02, timeStep: smallStep, fifo: true,
+		config: baseConfig,
+		gen: func(w *world) *t_api.Request {
+			r := w.r
+			id := pick(r, []string{"a", "a:b"})
+			switch x := r.intn(10); {
+			case x < 3:
+				return &t_api.Request{Kind: t_api.CreatePromise, CreatePromise: &t_api.CreatePromiseRequest{Id: id, Timeout: w.now + 30 + int64(r.intn(20))}}
+			case x < 6:
+				// __notify:a:b:s1 is the id of (promise a:b, subscription s1) and of (promise a, subscription b:s1)
+				sid := "s1"
+				if id == "a" {
+					sid = "b:s1"
+				}
+				return &t_api.Request{Kind: t_api.CreateSubscription, CreateSubscription: &t_api.CreateSubscriptionRequest{
+					Id: sid, PromiseId: id, Timeout: w.now + 40, Recv: recvOf(r)}}
+			case x < 9:
+				return &t_api.Request{Kind: t_api.CompletePromise, CompletePromise: &t_api.CompletePromiseRequest{
+					Id: id, State: promise.Resolved, Value: promise.Value{Data: smallData(r)}}}
+			default:
+				return &t_api.Request{Kind: t_api.ReadPromise, ReadPromise: &t_api.ReadPromiseRequest{Id: id}}
+			}
+		},
+	}
 	families["tasks-crash"] = &family{
 		name: "tasks-crash", bgs: []string{"TimeoutPromises", "EnqueueTasks", "TimeoutTasks"}, requests: 18, maxSteps: 55, fault: 0.04, crash: 0.07,
 		timeStep: smallStep, fifo: true, senderOK: 0.6, config: baseConfig, gen: taskGen,
